@@ -399,10 +399,20 @@ def _classify(case):
 
 def _resource(lx):
     i, v, l = lx
-    return {'lmf_version': '1.1',
-            'lexicons': [{'id': i, 'version': v, 'label': f'lexicon {i} {v}', 'language': l,
-                          'email': 'c08@example.org', 'license': 'https://example.org/license',
-                          'meta': None}]}
+    doc = {'id': i, 'version': v, 'label': f'lexicon {i} {v}', 'language': l,
+           'email': 'c08@example.org', 'license': 'https://example.org/license',
+           'meta': None}
+    # some lexicons declare dependencies (a fixed function of id and version): on a lexicon
+    # that is never installed, or on another id:version of the pool that may or may not be
+    # installed at the time.  Selection by specifier / language does not depend on them.
+    k = (len(i) * 7 + len(v) * 3 + sum(map(ord, v))) % 4
+    if k == 0:
+        doc['requires'] = [{'id': 'nowhere', 'version': '9'}]
+    elif k == 1:
+        doc['requires'] = [{'id': 'a', 'version': '1'}, {'id': 'nowhere', 'version': '9'}]
+    elif k == 2:
+        doc['requires'] = [{'id': 'b', 'version': '1.0'}]
+    return {'lmf_version': '1.1', 'lexicons': [doc]}
 
 
 def _build(case, out):
